@@ -201,11 +201,27 @@ func hdrGrid(o *Out, rng *rand.Rand, thorough bool, _ []string) {
 			v := b * m
 			vals = append(vals, v-1, v, v+1)
 		}
+		// leading-one patterns with random lower bits: 2^j + uniform[0, 2^(j-t)) puts the top bits exactly on
+		// a threshold of the bit-length cascade (t = 1, 3, 7, 15) while the lower bits still vary
+		for k := 0; k < 32; k++ {
+			j := uint(rng.Intn(42))
+			t := []uint{1, 3, 7, 15}[rng.Intn(4)]
+			span := int64(1)
+			if j > t {
+				span = int64(1) << (j - t)
+			}
+			vals = append(vals, int64(1)<<j+rng.Int63n(span))
+		}
 		for _, v := range vals {
 			if v < 0 || v > mx+1 {
 				continue
 			}
-			run(o, fmt.Sprintf("hdr-probe %d %d %d %d", mn, mx, s, v))
+			if s <= 3 {
+				// small counts arrays: the full public-API oracle (the bar that counts v must contain v)
+				run(o, fmt.Sprintf("hdr-rec %d %d %d %d", mn, mx, s, v))
+			} else {
+				run(o, fmt.Sprintf("hdr-probe %d %d %d %d", mn, mx, s, v))
+			}
 		}
 	}
 }
